@@ -643,6 +643,7 @@ func (e *Engine) VerifyFunc(fn *ssa.Function, fc *FuncContract, smoke bool) (res
 		u.Fact(app("distinct", ts...))
 	}
 	a.entry = st.clone()
+	u.entryEnv = func() *Env { return a.fnEnv(fn, a.params, a.free, a.entry, a.entry, nil) }
 	env := a.fnEnv(fn, a.params, a.free, st, a.entry, nil)
 	// implicit receiver non-nil
 	if recv := fn.Signature.Recv(); recv != nil && len(a.params) > 0 {
@@ -719,6 +720,9 @@ func (a *Act) frameObligations(out *State, fc *FuncContract) {
 	sort.Strings(names)
 	for _, n := range names {
 		srt := u.heapSort[n]
+		if _, isTrace := traceSorts[n]; isTrace {
+			continue // ghost state
+		}
 		init := u.heapInit(n, srt)
 		if out.heaps[n] == init {
 			continue
